@@ -252,6 +252,9 @@ func (h *harness) respond(where string) fox.HandlerFunc {
 		}
 		if e.clone == "after" {
 			h.takeClone(c, e, "after")
+			// the handler goes on changing its response header (a trailer, a late header): the clone is a copy, not a view
+			c.Writer().Header().Set("X-Late", "late-"+e.tok)
+			c.Writer().Header().Set("X-Resp", "late-"+e.tok)
 		}
 		h.inspect(where+" (after writing)", c, false)
 	}
@@ -500,6 +503,9 @@ func (h *harness) recheckClones() {
 						h.fail("%s: response header %s: %s carries token %s of another request", pre, k, v, f)
 					}
 				}
+			}
+			if sc.when == "after" && w.Header().Get("X-Late") != "" {
+				h.fail("%s: response header X-Late=%q appeared in the clone although the handler set it after cloning", pre, w.Header().Get("X-Late"))
 			}
 			if (sc.when == "after" || e.viaLookup) && w.Header().Get("X-Resp") != e.tok {
 				h.fail("%s: response header X-Resp=%q, the handler had set %q before cloning", pre, w.Header().Get("X-Resp"), e.tok)
